@@ -212,7 +212,7 @@ def confirm_bodyq(sc: Scratch, g: dict, r: HarnessResult, log_dir: Path) -> dict
         recs = [l for l in tr if l.get("kind") == "c15b"]
         if not recs:
             continue
-        script = {k: recs[0][k] for k in ("extractor", "header", "other_first", "bytes", "parser_fails")}
+        script = {k: recs[0][k] for k in ("extractor", "header", "other_first", "bytes", "parser_fails", "trailing")}
         script["_origin"] = {"harness": r.spec.name, "failed": role}
         h = hashlib.sha256(json.dumps(script, sort_keys=True).encode()).hexdigest()[:12]
         if h in seen:
